@@ -466,8 +466,3 @@ Proof.
   apply (heap_perms_good (a :: l)); [discriminate|exact H].
 Qed.
 
-Print Assumptions heap_perms_map.
-Print Assumptions heap_perms_sound.
-Print Assumptions heap_perms_length.
-Print Assumptions heap_perms_complete.
-Print Assumptions heap_perms_nodup.
